@@ -20,13 +20,16 @@ import struct
 import subprocess
 import vcommon as vc
 
-RULE = ("one PRNG (VERIF_SEED) drives everything.  ad: every integer number type x {no option, -t limit, -p "
-        "relative, -e count} x arrays of 1..9 elements drawn from the type's boundary values (min, max, 0, -1, "
-        "half-range apart) and random ones; hd: generated files (1-3 SDS of every type, rank 1-3, with "
-        "attributes; GR images with 1-3 components; Vdatas with 1-3 fields; empty Vgroups; global attributes) "
-        "and, per file, every kind of single-point mutation incl. the extreme pairs (-128/127, 0/255, "
-        "INT_MIN/INT_MAX, values exactly half the range apart), each compared in both orders; dump: every "
-        "object of every generated file; imp: text and binary inputs of every supported type, rank 2 and 3. "
+RULE = ("one PRNG (VERIF_SEED) drives everything.  ad: every integer number type (plus little-endian / native "
+        "flavoured ones) x {no option, -t limit, -p relative, -e count} x arrays of 1..9 elements drawn from the type's "
+        "boundary values (min, max, 0, -1, half-range apart) and random ones; float32 / float64 (plain): pairs 1 and 3 "
+        "ulps apart among ordinary, denormal, tiny (1e-60) and huge (1e300) magnitudes; hd: generated files (1-3 SDS "
+        "of every type and flavour, rank 1-3, with attributes; GR images with 1-3 components; Vdatas with 1-3 fields of "
+        "every type and flavour; empty Vgroups; global attributes) and, per file, every kind of single-point mutation "
+        "incl. the extreme pairs (-128/127, 0/255, INT_MIN/INT_MAX, half the range apart, floats one ulp apart at every "
+        "magnitude), a global attribute appended / prepended / removed, each compared in both orders; dump: every "
+        "object of every generated file (all flavours); imp: every input kind alone (rank 2 and 3) and every ordered "
+        "pair of different input kinds (plus some triples) in ONE hdfimport command. "
         "A case is non-trivial when it lies in the property's domain (comparable objects, in-range values, "
         "NaN-free floats) and the tool ran; distinct by content")
 TRUSTED = ["Coq 8.16.1 kernel (vm_compute only for closed witnesses and finite tables)",
@@ -39,8 +42,9 @@ TRUSTED = ["Coq 8.16.1 kernel (vm_compute only for closed witnesses and finite t
            "the C library's printf %f is the reference for floating-point text (Python's % operator, same "
            "correctly rounded conversion); strtod/scanf of floating input is not modelled",
            "modelled, not verified: control skeleton of array_diff/match/diff_sds/diff_gr/vdata_cmp/gattr_diff/"
-           "sdsdumpfull/gdata (which loop runs when), the floating-point branches of array_diff (abstracted as "
-           "bit-pattern inequality), hdiff_list's traversal order, diff_match_dim, SDreaddata as the n-d array of C03"]
+           "sdsdumpfull/gdata (which loop runs when), IEEE arithmetic of the floating-point branches of array_diff "
+           "(only the width skeleton of the difference expression is regenerated and proved on; the executable model "
+           "flags differing bit patterns), hdiff_list's traversal order, diff_match_dim, SDreaddata as the n-d array of C03"]
 ASSUMPTIONS = ["little-endian host, two's-complement int8/16/32/64 (gcc)",
                "property domain: NaN-free floating data without negative zero; objects matched by name are of the "
                "same class, type and shape ('not comparable' objects are outside the equality claim); datasets "
@@ -61,21 +65,40 @@ SIG_SINGLE = "object-in-one-file-only:listed-by-match-but-not-counted"
 # values
 # ------------------------------------------------------------------------------------------------
 
-def fbits(nt, r):
-    """a finite, non-zero floating value of moderate magnitude, as its bit pattern"""
-    if nt == 5:
-        return (r.getrandbits(1) << 31) | (r.randrange(100, 150) << 23) | r.getrandbits(23)
-    return (r.getrandbits(1) << 63) | (r.randrange(1000, 1046) << 52) | r.getrandbits(52)
+def bt(nt):
+    """base number type of a possibly flavoured (native 0x1000, little-endian 0x4000) type"""
+    return nt & 0xff
+
+
+def flavoured(base, r, native=True):
+    return base | r.choice([0, 0, 0x1000, 0x4000, 0x4000] if native else [0, 0x4000, 0x4000])
+
+
+def isfloat(nt):
+    return bt(nt) in FLOAT_TYPES
+
+
+def fbits(nt, r, cls=None):
+    """a finite, non-zero floating value, as its bit pattern: ordinary magnitude, denormal, tiny (1e-60 / 1e-36),
+    huge (1e300 / 1e38)"""
+    cls = cls or r.choice(["ord", "ord", "ord", "den", "tiny", "tiny", "huge"])
+    if bt(nt) == 5:
+        e = {"ord": r.randrange(100, 150), "den": 0, "tiny": r.randrange(1, 12), "huge": r.randrange(251, 255)}[cls]
+        m = r.getrandbits(23) or 1
+        return (r.getrandbits(1) << 31) | (e << 23) | m
+    e = {"ord": r.randrange(1000, 1046), "den": 0, "tiny": r.randrange(800, 830), "huge": r.randrange(2000, 2047)}[cls]
+    m = r.getrandbits(52) or 1
+    return (r.getrandbits(1) << 63) | (e << 52) | m
 
 
 def fval(nt, bits):
-    return struct.unpack("<f", struct.pack("<I", bits))[0] if nt == 5 else struct.unpack("<d", struct.pack("<Q", bits))[0]
+    return struct.unpack("<f", struct.pack("<I", bits))[0] if bt(nt) == 5 else struct.unpack("<d", struct.pack("<Q", bits))[0]
 
 
 def rand_val(nt, r):
-    if nt in FLOAT_TYPES:
+    if isfloat(nt):
         return fbits(nt, r)
-    lo, hi = INT_RANGE[nt]
+    lo, hi = INT_RANGE[bt(nt)]
     span = hi - lo + 1
     c = r.randrange(10)
     if c == 0:
@@ -93,12 +116,22 @@ def rand_val(nt, r):
     return r.randrange(lo, hi + 1)
 
 
+def fneighbour(nt, v, k):
+    """the floating value k units in the last place away from v (same sign, stays finite and non-zero)"""
+    mag_bits = 31 if bt(nt) == 5 else 63
+    sign, mag = v >> mag_bits, v & ((1 << mag_bits) - 1)
+    top = (0xff << 23) if bt(nt) == 5 else (0x7ff << 52)
+    m2 = mag + k if 0 < mag + k < top else mag - k
+    return (sign << mag_bits) | m2
+
+
 def other_vals(nt, v, r):
     """candidate replacement values for v, extreme partners first"""
-    if nt in FLOAT_TYPES:
-        out = [v ^ 1, v ^ (1 << (31 if nt == 5 else 63)), fbits(nt, r)]
+    if isfloat(nt):
+        out = [fneighbour(nt, v, 1), fneighbour(nt, v, -1), fneighbour(nt, v, 3), v ^ (1 << (31 if bt(nt) == 5 else 63)),
+               fbits(nt, r)]
         return [x for x in out if x != v]
-    lo, hi = INT_RANGE[nt]
+    lo, hi = INT_RANGE[bt(nt)]
     span = hi - lo + 1
     cand = [lo + (v - lo + span // 2) % span, lo if v != lo else hi, hi if v != hi else lo,
             lo + (v - lo + 1) % span, lo + (v - lo - 1) % span, lo + (v - lo + span // 2 + 1) % span]
@@ -132,7 +165,7 @@ def gen_file(r, idx):
     types = list(NUM_TYPES)
     r.shuffle(types)
     for k in range(nsds):
-        nt = types[(idx + k) % len(types)]
+        nt = flavoured(types[(idx + k) % len(types)], r)
         rank = r.choice([1, 2, 2, 3])
         dims = [r.randrange(1, 5) for _ in range(rank)]
         if rank > 1 and r.randrange(3) == 0:
@@ -144,14 +177,16 @@ def gen_file(r, idx):
         attrs = [gen_attr(r, "at%d" % j) for j in range(r.randrange(0, 3))]
         objs.append({"k": "S", "name": "sds%d_%d" % (idx, k), "nt": nt, "dims": dims, "vals": vals, "attrs": attrs})
     for k in range(r.randrange(0, 3)):
-        nt = r.choice([21, 21, 20, 22, 23, 24, 25, 5])
+        # no native flavour for images: GRcreate drops the flag and multi-byte values come back byte-swapped through
+        # the API itself (a GR round-trip matter, property C09), which has nothing to do with the tools
+        nt = flavoured(r.choice([21, 21, 20, 22, 23, 24, 25, 5, 6]), r, native=False)
         nc = r.choice([1, 1, 2, 3])
         xd, yd = r.randrange(1, 5), r.randrange(1, 5)
         objs.append({"k": "R", "name": "img%d_%d" % (idx, k), "nt": nt, "nc": nc, "xd": xd, "yd": yd,
                      "vals": [rand_val(nt, r) for _ in range(xd * yd * nc)]})
     for k in range(r.randrange(0, 3)):
         nf = r.randrange(1, 4)
-        fields = [("f%d" % j, r.choice(NUM_TYPES), r.randrange(1, 3)) for j in range(nf)]
+        fields = [("f%d" % j, flavoured(r.choice(NUM_TYPES), r), r.randrange(1, 3)) for j in range(nf)]
         nrec = r.randrange(1, 5)
         vals = []
         for _ in range(nrec):
@@ -226,6 +261,20 @@ def mutations(f, r, idx):
         g = clone(f)
         g["gattrs"][ai]["vals"][p] = nv
         out.append(("attr-G", "global %s[%d] %d -> %d" % (a["name"], p, a["vals"][p], nv), g, None))
+    # global attribute appended / prepended / removed (first, last)
+    for where in ("append", "prepend"):
+        g = clone(f)
+        new = gen_attr(r, "newglob_%s%d" % (where, idx))
+        if where == "append":
+            g["gattrs"].append(new)
+        else:
+            g["gattrs"].insert(0, new)
+        out.append(("gattr-added-" + where, "global attribute %s %s" % (new["name"], where + "ed"), g, None))
+    for ai in sorted(set([0, len(f["gattrs"]) - 1])):
+        if 0 <= ai < len(f["gattrs"]):
+            g = clone(f)
+            del g["gattrs"][ai]
+            out.append(("gattr-removed", "global attribute %s removed" % f["gattrs"][ai]["name"], g, None))
     # removed object (each one present) and added object (one of each class, names sorting before / after)
     for oi, o in enumerate(f["objs"]):
         g = clone(f)
@@ -298,6 +347,15 @@ def model_lines(env, mode, text):
     return out.splitlines()
 
 
+SOFT = []
+
+
+def soft(ctx, what, text):
+    """R agrees with S but not with M (or M with S): the property is not refuted on this input, only no longer shown.
+    Remembered, reported at the end (found=False) unless a real failing input turns up; never stops the search."""
+    SOFT.append((what, text))
+
+
 def crashed(rc):
     return rc in (97, 98, 124) or rc < 0 or rc >= 128
 
@@ -308,8 +366,21 @@ def gen_ad_cases(ctx):
     r = ctx.rng
     cases = []
     per = 14 if ctx.tier == "quick" else 150
-    for nt in INT_TYPES + [3, 4]:
-        lo, hi = INT_RANGE[nt]
+    # floating types (incl. a flavoured one): plain calls only; pairs one or a few ulps apart at every magnitude
+    for nt in (5, 6, 0x4000 | 6, 0x1000 | 5):
+        for cls in ("ord", "den", "tiny", "huge"):
+            for k in (1, -1, 3):
+                v = fbits(nt, r, cls)
+                cases.append((nt, 1 << 30, 0, 0, 0, [v], [fneighbour(nt, v, k)]))
+            v = fbits(nt, r, cls)
+            cases.append((nt, 1 << 30, 0, 0, 0, [v, v], [v, v]))
+        for _ in range(per // 3):
+            n = r.randrange(1, 8)
+            a = [rand_val(nt, r) for _ in range(n)]
+            b = [(x if r.randrange(3) else r.choice(other_vals(nt, x, r))) for x in a]
+            cases.append((nt, 1 << 30, 0, 0, 0, a, b))
+    for nt in INT_TYPES + [3, 4, 0x4000 | 22, 0x1000 | 25, 0x4000 | 20]:
+        lo, hi = INT_RANGE[bt(nt)]
         span = hi - lo + 1
         specials = [(lo, hi), (hi, lo), (0, lo + span // 2 if lo < 0 else span // 2), (lo + span // 2, lo),
                     (lo, lo), (hi, hi), (max(lo, -1), hi), (lo + span // 4, lo + span // 4 + span // 2)]
@@ -376,9 +447,14 @@ def check_ad(env, ctx):
         rr = R[i] if i < len(R) else "crash"
         plain = lim == 0 and rd == 0 and mx >= len(a)
         st["plain" if plain else ("with_limit" if lim else "with_relative" if rd else "with_count")] += 1
-        lo, hi = INT_RANGE[nt]
-        if any(abs(x - y) * 2 == hi - lo + 1 for x, y in zip(a, b)):
-            st["half_range_pairs"] += 1
+        if isfloat(nt):
+            st["float_cases"] = st.get("float_cases", 0) + 1
+        else:
+            lo, hi = INT_RANGE[bt(nt)]
+            if any(abs(x - y) * 2 == hi - lo + 1 for x, y in zip(a, b)):
+                st["half_range_pairs"] += 1
+        if nt >> 12:
+            st["flavoured_cases"] = st.get("flavoured_cases", 0) + 1
         if a != b:
             st["differing_cases"] += 1
         ctx.case(("ad",) + tuple(c[:5]) + (tuple(a), tuple(b)), True,
@@ -388,12 +464,12 @@ def check_ad(env, ctx):
             ctx.violation("array_diff does not report exactly the differing positions: " + fmt_ad(c)[:160], txt, found=True)
         elif rr != m:
             if plain:
-                ctx.violation("array_diff model differs from the library", txt, found=False)
+                soft(ctx, "array_diff model differs from the library", txt)
             else:
-                ctx.violation("array_diff with options differs from its model (no specification-level failure "
-                              "found): relation array_diff ~ array_diff_m", txt, found=False)
+                soft(ctx, "array_diff with options differs from its model (no specification-level failure "
+                              "found): relation array_diff ~ array_diff_m", txt)
         elif plain and m != s:
-            ctx.violation("model differs from specification (theorem array_diff_zero_iff_equal broken?)", txt, found=False)
+            soft(ctx, "model differs from specification (theorem array_diff_zero_iff_equal broken?)", txt)
         if len(ctx.violations) >= 4:
             break
     if (crashed(rc) or len(R) < len(cases)) and not ctx.violations:
@@ -474,8 +550,7 @@ def check_pair(env, ctx, kind, what, t1, t2, st, sdspos=None, files=None):
         return
     if verbose:
         if r_tbl != m_tbl:
-            ctx.violation("match table of hdiff -b differs from cmatch", body + "\n# model table: %s\n# hdiff table: %s\n" % (m_tbl, r_tbl),
-                          found=False)
+            soft(ctx, "match table of hdiff -b differs from cmatch", body + "\n# model table: %s\n# hdiff table: %s\n" % (m_tbl, r_tbl))
             return
         reported = len([l for l in out.splitlines() if "is only in file" in l or "does not exist" in l or l.startswith("[ ")]) > 0
         if s_exit == "1" and kind.startswith(("added", "removed")) and not reported:
@@ -489,7 +564,7 @@ def check_pair(env, ctx, kind, what, t1, t2, st, sdspos=None, files=None):
             ctx.violation("hdiff exit 1 but empty report", body + side, found=True)
             return
     if str(rc) != m_exit:
-        ctx.violation("hdiff agrees with the specification but not with its model hdiff_m", body + side, found=False)
+        soft(ctx, "hdiff agrees with the specification but not with its model hdiff_m", body + side)
         return
     if sdspos is not None and s_exit == "1":
         dims, k = sdspos
@@ -523,7 +598,7 @@ def check_hd(env, ctx):
                 seen[mt[0]] = seen.get(mt[0], 0) + 1
                 if seen[mt[0]] <= 2:
                     keep.append(mt)
-            muts = keep[:18]
+            muts = keep[:26]
         for kind, what, g, pos in muts:
             tg = desc_text(g)
             other = env.mk(tg)
@@ -544,13 +619,13 @@ def check_hd(env, ctx):
 # ---- dump --------------------------------------------------------------------------------------
 
 def fmt_api(nt, v):
-    if nt in FLOAT_TYPES:
+    if isfloat(nt):
         return "%f" % fval(nt, v)
     return str(v)
 
 
 def check_dump(env, ctx, dumps):
-    st = {"objects": 0, "tokens": 0, "sds": 0, "gr": 0, "vd": 0, "integer_objects_vs_model": 0}
+    st = {"objects": 0, "tokens": 0, "sds": 0, "gr": 0, "vd": 0, "integer_objects_vs_model": 0, "flavours": {}}
     for f, t, (d, h) in dumps:
         rc, api, err = env.run([env.exe, "rd", d, h])
         if rc != 0:
@@ -576,12 +651,12 @@ def check_dump(env, ctx, dumps):
             if o["k"] == "S":
                 rank = int(tk[3])
                 vals = list(map(int, tk[5 + rank:]))
-                types = [o["nt"]] * len(vals)
+                types = [int(tk[2])] * len(vals)
                 cmd = [env.hdp, "dumpsds", "-d", "-n", o["name"], h]
                 st["sds"] += 1
             elif o["k"] == "R":
                 vals = list(map(int, tk[7:]))
-                types = [o["nt"]] * len(vals)
+                types = [int(tk[2])] * len(vals)
                 cmd = [env.hdp, "dumpgr", "-d", "-n", o["name"], h]
                 st["gr"] += 1
             else:
@@ -608,12 +683,14 @@ def check_dump(env, ctx, dumps):
             elif rtoks != stoks:
                 ctx.violation("hdp dump of %s differs from the values the API returns" % o["name"], rec, found=True)
             else:
-                allint = all(nt in INT_TYPES for nt in types)
+                for nt in types:
+                    st["flavours"][nt >> 12] = st["flavours"].get(nt >> 12, 0) + 1
+                allint = all(bt(nt) in INT_TYPES for nt in types)
                 if allint:
                     st["integer_objects_vs_model"] += 1
                     if mtoks.get(o["name"]) != rtoks:
-                        ctx.violation("hdp dump agrees with the API but not with the model (row walk / integer formatting)",
-                                      rec, found=False)
+                        soft(ctx, "hdp dump agrees with the API but not with the model (row walk / integer formatting)",
+                                      rec)
             if len(ctx.violations) >= 4:
                 return
     ctx.corr("hdp-dump~API-values~dump_sds_m/hdp_print", **st)
@@ -629,98 +706,142 @@ def dyadic(r):
     return r.randrange(-4000, 4001) / 8.0
 
 
+IMP_KINDS = [("text", "INT8"), ("text", "INT16"), ("text", "INT32"), ("text", "FP32"), ("text", "FP64"),
+             ("bin", "IN08"), ("bin", "IN16"), ("bin", "IN32"), ("bin", "FP32"), ("bin", "FP64"), ("bin", "FP64as32")]
+
+
+def make_input(r, mode, ty, rank):
+    """one hdfimport input file: (bytes, per-file options, expected 'nt rank dims n values')"""
+    planes = r.randrange(2, 4) if rank == 3 else 1
+    rows, cols = r.randrange(2, 5), r.randrange(2, 5)
+    n = planes * rows * cols
+    nsc = (planes if rank == 3 else 0) + rows + cols
+    opts = []
+    if mode == "text":
+        nt, bits = IMP_TEXT[ty]
+        if bits:
+            lo, hi = INT_RANGE[nt]
+            vals = [rand_val(nt, r) for _ in range(n)]
+            vals[0], vals[-1] = lo, hi
+            scales = [r.randrange(max(lo, -50), min(hi, 50)) for _ in range(nsc)]
+            tok = str
+        else:
+            vals = [dyadic(r) for _ in range(n)]
+            scales = [float(i) for i in range(nsc)]
+            tok = repr
+        seps = [r.choice([" ", "\n", "  ", "\t", " \n"]) for _ in range(5 + nsc + n)]
+        nums = [str(planes), str(rows), str(cols)] + [tok(x) for x in (max(vals), min(vals))] + [tok(x) for x in scales] + [tok(x) for x in vals]
+        data = ("TEXT" + "".join(sp + x for sp, x in zip(["\n"] + seps, nums)) + "\n").encode()
+        if ty != "FP32":
+            opts = ["-t", ty]
+    else:
+        tag = "FP64" if ty == "FP64as32" else ty
+        nt, code = IMP_BIN[tag]
+        if nt in INT_TYPES:
+            lo, hi = INT_RANGE[nt]
+            vals = [rand_val(nt, r) for _ in range(n)]
+            vals[0], vals[-1] = lo, hi
+            scales = [r.randrange(0, 50) for _ in range(nsc)]
+        else:
+            vals = [dyadic(r) for _ in range(n)]
+            scales = [float(i) for i in range(nsc)]
+        data = tag.encode() + struct.pack("<3i", planes, rows, cols) + struct.pack("<2" + code, max(vals), min(vals))
+        data += struct.pack("<%d%s" % (nsc, code), *scales) + struct.pack("<%d%s" % (n, code), *vals)
+        if ty == "FP64":
+            opts = ["-n"]
+        if ty == "FP64as32":
+            nt = 5          # without -n a 64-bit binary input is stored as a 32-bit floating-point dataset
+    dims = [planes, rows, cols] if planes > 1 else [rows, cols]
+    if nt in FLOAT_TYPES:
+        wv = [struct.unpack("<I", struct.pack("<f", v))[0] if nt == 5 else struct.unpack("<Q", struct.pack("<d", v))[0] for v in vals]
+    else:
+        wv = list(vals)
+    want = "%d %d %s %d %s" % (nt, len(dims), " ".join(map(str, dims)), len(wv), " ".join(map(str, wv)))
+    return {"mode": mode, "ty": ty, "data": data, "opts": opts, "want": want, "nt": nt, "shape": (planes, rows, cols)}
+
+
 def gen_imp_cases(ctx):
+    """each case = the list of input files of ONE hdfimport command"""
     r = ctx.rng
     cases = []
-    reps = 2 if ctx.tier == "quick" else 12
+    reps = 1 if ctx.tier == "quick" else 8
     for _ in range(reps):
-        for ty in IMP_TEXT:
+        for (mode, ty) in IMP_KINDS:
             for rank in (2, 3):
-                planes = r.randrange(2, 4) if rank == 3 else 1
-                rows, cols = r.randrange(2, 5), r.randrange(2, 5)
-                n = planes * rows * cols
-                nt, bits = IMP_TEXT[ty]
-                if bits:
-                    lo, hi = INT_RANGE[nt]
-                    vals = [rand_val(nt, r) for _ in range(n)]
-                    vals[0], vals[-1] = lo, hi
-                    scales = [r.randrange(max(lo, -50), min(hi, 50)) for _ in range((planes if rank == 3 else 0) + rows + cols)]
-                    mm = [max(vals), min(vals)]
-                    tok = str
-                else:
-                    vals = [dyadic(r) for _ in range(n)]
-                    scales = [float(i) for i in range((planes if rank == 3 else 0) + rows + cols)]
-                    mm = [max(vals), min(vals)]
-                    tok = repr
-                seps = [r.choice([" ", "\n", "  ", "\t", " \n"]) for _ in range(5 + len(scales) + n)]
-                nums = [str(planes), str(rows), str(cols)] + [tok(x) for x in mm] + [tok(x) for x in scales] + [tok(x) for x in vals]
-                text = "TEXT" + "".join(s + x for s, x in zip(["\n"] + seps, nums)) + "\n"
-                cases.append(("text", ty, planes, rows, cols, vals, text.encode()))
-        for ty in IMP_BIN:
-            for rank in (2, 3):
-                planes = r.randrange(2, 4) if rank == 3 else 1
-                rows, cols = r.randrange(2, 5), r.randrange(2, 5)
-                n = planes * rows * cols
-                nt, code = IMP_BIN[ty]
-                if nt in INT_TYPES:
-                    lo, hi = INT_RANGE[nt]
-                    vals = [rand_val(nt, r) for _ in range(n)]
-                    vals[0], vals[-1] = lo, hi
-                    scales = [r.randrange(0, 50) for _ in range((planes if rank == 3 else 0) + rows + cols)]
-                else:
-                    vals = [dyadic(r) for _ in range(n)]
-                    scales = [float(i) for i in range((planes if rank == 3 else 0) + rows + cols)]
-                data = ty.encode() + struct.pack("<3i", planes, rows, cols) + struct.pack("<2" + code, max(vals), min(vals))
-                data += struct.pack("<%d%s" % (len(scales), code), *scales) + struct.pack("<%d%s" % (n, code), *vals)
-                cases.append(("bin", ty, planes, rows, cols, vals, data))
+                cases.append([make_input(r, mode, ty, rank)])
+        # several inputs of different kinds in one command, in every order
+        for a in IMP_KINDS:
+            for b in IMP_KINDS:
+                if a != b:
+                    cases.append([make_input(r, a[0], a[1], r.choice([2, 3])), make_input(r, b[0], b[1], r.choice([2, 3]))])
+        for _ in range(6 if ctx.tier == "quick" else 40):
+            ks = r.sample(IMP_KINDS, 3)
+            cases.append([make_input(r, m, t, r.choice([2, 3])) for (m, t) in ks])
     return cases
+
+
+def run_import(env, files):
+    """write the inputs, run one hdfimport command on all of them, read every dataset back"""
+    args = [env.hdfimport]
+    inps = []
+    for f in files:
+        inp = env.path(".imp")
+        open(inp, "wb").write(f["data"])
+        inps.append(inp)
+        args += [inp] + f["opts"]
+    out = inps[0] + ".hdf"
+    rc, o1, e1 = env.run(args + ["-o", os.path.basename(out)])
+    got = []
+    if rc == 0:
+        rc2, o2, e2 = env.run([env.exe, "rd0", out])
+        got = [" ".join(l.split()[2:]) for l in o2.splitlines() if l.startswith("S ")]
+    return rc, got, (o1 + e1), inps
+
+
+def imp_record(files):
+    return "IMP %d\n%s\n" % (len(files), "\n".join("%s %s %s\n# spec (type rank dims n values): %s" % (
+        f["mode"], f["ty"], f["data"].hex(), f["want"]) for f in files))
 
 
 def check_imp(env, ctx):
     cases = gen_imp_cases(ctx)
-    st = {"cases": len(cases), "text": 0, "binary": 0, "rank2": 0, "rank3": 0, "integer_text_vs_model": 0}
-    for i, (mode, ty, planes, rows, cols, vals, data) in enumerate(cases):
-        inp = env.path(".imp")
-        open(inp, "wb").write(data)
-        out = inp + ".hdf"
-        nt = (IMP_TEXT if mode == "text" else IMP_BIN)[ty][0]
-        args = [env.hdfimport, inp]
-        if mode == "text" and ty != "FP32":
-            args += ["-t", ty]
-        if mode == "bin" and ty == "FP64":
-            args += ["-n"]
-        args += ["-o", os.path.basename(out)]
-        rc, o1, e1 = env.run(args)
-        st["text" if mode == "text" else "binary"] += 1
-        st["rank3" if planes > 1 else "rank2"] += 1
-        want_dims = [planes, rows, cols] if planes > 1 else [rows, cols]
-        if nt in FLOAT_TYPES:
-            wv = [struct.unpack("<I", struct.pack("<f", v))[0] if nt == 5 else struct.unpack("<Q", struct.pack("<d", v))[0] for v in vals]
-        else:
-            wv = list(vals)
-        want = "%d %d %s %d %s" % (nt, len(want_dims), " ".join(map(str, want_dims)), len(wv), " ".join(map(str, wv)))
-        got = "import failed rc=%d" % rc
-        if rc == 0:
-            rc2, o2, e2 = env.run([env.exe, "rd0", out])
-            sl = [l for l in o2.splitlines() if l.startswith("S ")]
-            got = " ".join(sl[0].split()[2:]) if sl else "no dataset (rc=%d)" % rc2
-        ctx.case(("imp", mode, ty, planes, rows, cols, tuple(vals)), True,
-                 sample={"hdfimport": "%s %s %dx%dx%d" % (mode, ty, planes, rows, cols), "dataset": got[:80]} if i % 7 == 0 else None)
-        rec = "IMP %s %s\n%s\n# input numbers: planes=%d rows=%d cols=%d\n# spec (type rank dims n values): %s\n# SDreaddata on hdfimport's output: %s\n# %s\n" % (
-            mode, ty, data.hex(), planes, rows, cols, want, got, (o1 + e1)[-400:].replace("\n", "\n# "))
+    st = {"commands": len(cases), "inputs": 0, "text": 0, "binary": 0, "rank2": 0, "rank3": 0, "integer_text_vs_model": 0,
+          "files_per_command": {}, "ordered_kind_pairs": 0}
+    pairs = set()
+    for i, files in enumerate(cases):
+        rc, got, msg, inps = run_import(env, files)
+        st["files_per_command"][len(files)] = st["files_per_command"].get(len(files), 0) + 1
+        for f in files:
+            st["inputs"] += 1
+            st["text" if f["mode"] == "text" else "binary"] += 1
+            st["rank3" if f["shape"][0] > 1 else "rank2"] += 1
+        for a, b in zip(files, files[1:]):
+            pairs.add((a["mode"], a["ty"], b["mode"], b["ty"]))
+        want = [f["want"] for f in files]
+        ctx.case(("imp", tuple((f["mode"], f["ty"], f["data"]) for f in files)), True,
+                 sample={"hdfimport": " + ".join("%s %s" % (f["mode"], f["ty"]) for f in files), "datasets": [g[:40] for g in got]} if i % 29 == 0 else None)
+        rec = imp_record(files) + "# SDreaddata on hdfimport's output (rc=%d):\n%s\n# %s\n" % (
+            rc, "\n".join("#   " + g for g in got), msg[-400:].replace("\n", "\n# "))
         if crashed(rc):
             ctx.violation("hdfimport crashed (rc=%d)" % rc, rec, found=True)
         elif got != want:
-            ctx.violation("hdfimport output differs from its input (%s %s)" % (mode, ty), rec, found=True)
-        elif mode == "text" and nt in INT_TYPES:
-            st["integer_text_vs_model"] += 1
-            ml = model_lines(env, "imp", "%d %s\n" % (IMP_TEXT[ty][1], inp))[0]
-            mwant = "M %d %s ; %s" % (len(want_dims), " ".join(map(str, want_dims)), " ".join(map(str, wv)))
-            if " ".join(ml.split()) != " ".join(mwant.split()):
-                ctx.violation("hdfimport agrees with its input but the tokeniser model does not",
-                              rec + "# model: %s\n" % ml[:600], found=False)
+            k = next((n for n, (g, w) in enumerate(zip(got + [None] * len(want), want)) if g != w), 0)
+            ctx.violation("hdfimport output differs from its input (input %d of %d: %s %s)" % (
+                k + 1, len(files), files[k]["mode"], files[k]["ty"]), rec, found=True)
+        else:
+            for f, inp in zip(files, inps):
+                if f["mode"] == "text" and f["nt"] in INT_TYPES:
+                    st["integer_text_vs_model"] += 1
+                    ml = model_lines(env, "imp", "%d %s\n" % (IMP_TEXT[f["ty"]][1], inp))[0]
+                    tk = f["want"].split()
+                    rank = int(tk[1])
+                    mwant = "M %d %s ; %s" % (rank, " ".join(tk[2:2 + rank]), " ".join(tk[3 + rank:]))
+                    if " ".join(ml.split()) != " ".join(mwant.split()):
+                        soft(ctx, "hdfimport agrees with its input but the tokeniser model does not",
+                                      rec + "# model: %s\n" % ml[:600])
         if len(ctx.violations) >= 4:
             break
+    st["ordered_kind_pairs"] = len(pairs)
     ctx.corr("hdfimport~spec_import~import_m", **st)
 
 
@@ -742,8 +863,8 @@ def check_pos(env, ctx):
         ctx.case(("pos", l), True)
         if m != s:
             bad += 1
-            ctx.violation("print_pos model differs from the row-major index (theorem print_pos_rowmajor broken?)",
-                          "POS\n%s\n# %s\n" % (l, o), found=False)
+            soft(ctx, "print_pos model differs from the row-major index (theorem print_pos_rowmajor broken?)",
+                          "POS\n%s\n# %s\n" % (l, o))
             break
     ctx.corr("print_pos_m~spec_index", cases=len(lines), disagreements=bad)
 
@@ -865,34 +986,27 @@ def replay_text(env, ctx, text, report=True):
                 mode, tk[1], rc, "agrees" if ok else "DIFFERS", " ".join(out.split())[:1500], " ".join(want)[:1500]))
         return 1 if bad else 0
     if head[0] == "IMP":
-        inp = env.path(".imp")
-        open(inp, "wb").write(bytes.fromhex(body[1].strip()))
-        mode, ty = head[1], head[2]
-        args = [env.hdfimport, inp]
-        if mode == "text" and ty != "FP32":
-            args += ["-t", ty]
-        if mode == "bin" and ty == "FP64":
-            args += ["-n"]
-        out = inp + ".hdf"
-        rc, o1, e1 = env.run(args + ["-o", os.path.basename(out)])
-        print("hdfimport rc=%d %s" % (rc, (o1 + e1)[-300:]))
-        o2 = env.run([env.exe, "rd0", out])[1]
-        print("SDreaddata:", o2)
-        sl = [l for l in o2.splitlines() if l.startswith("S ")]
-        got = " ".join(sl[0].split()[2:]) if sl else "no dataset"
-        if mode == "text" and ty in ("INT8", "INT16", "INT32"):
-            print("model:", model_lines(env, "imp", "%d %s\n" % (IMP_TEXT[ty][1], inp))[0])
-        want = None
-        for l in lines:
-            if l.startswith("# spec"):
-                print(l)
-                want = l.split(": ", 1)[1].strip()
-        return 0 if (want is not None and got == want) else 1
+        files = []
+        for l in body[1:]:
+            tk = l.split()
+            if len(tk) == 3:
+                mode, ty = tk[0], tk[1]
+                opts = (["-t", ty] if (mode == "text" and ty != "FP32") else []) + (["-n"] if (mode == "bin" and ty == "FP64") else [])
+                files.append({"mode": mode, "ty": ty, "data": bytes.fromhex(tk[2]), "opts": opts})
+        want = [l.split(": ", 1)[1].strip() for l in lines if l.startswith("# spec")]
+        rc, got, msg, inps = run_import(env, files)
+        print("hdfimport (%d input files) rc=%d %s" % (len(files), rc, msg[-300:]))
+        for k, w in enumerate(want):
+            g = got[k] if k < len(got) else "(missing)"
+            print("input %d  %s %s\n  spec      : %s\n  SDreaddata: %s   %s" % (k + 1, files[k]["mode"], files[k]["ty"], w, g,
+                                                                              "agrees" if g == w else "DIFFERS"))
+        return 0 if got == want else 1
     print("unknown replay record", head)
     return 2
 
 
 def run(ctx):
+    del SOFT[:]
     env = Env(ctx)
     try:
         run_corpus(env, ctx)
@@ -905,6 +1019,10 @@ def run(ctx):
             check_imp(env, ctx)
         check_pos(env, ctx)
         check_strip(env, ctx)
+        ctx.corr("model-only-disagreements", count=len(SOFT))
+        if not any(v["found"] for v in ctx.violations):
+            for what, text in SOFT[:2]:
+                ctx.violation(what, text, found=False)
     finally:
         env.cleanup()
 
